@@ -86,8 +86,8 @@ func H_C14_stringHelpers(n int, helper int) {
 	const fixedV, fixedT = "1.2.3-rc.1", "v1.2.3-rc.1"
 	ref := refSemver(in)
 	valid := ref.ok && !ref.overflow
-	var c1, c2 int
-	var e1, e2 error
+	var c1, c2, c3 int
+	var e1, e2, e3 error
 	var l1, l2 Ver
 	var le, le2 error
 	var other Ver
@@ -98,6 +98,7 @@ func H_C14_stringHelpers(n int, helper int) {
 		c2, e2 = Compare(fixedV, string(in))
 		l1, le = Latest(in, fixedV)
 		l2, le2 = Latest(fixedT, string(in))
+		c3, e3 = Compare(in, string(in)) // the same text on both sides
 		other, _ = Parse(fixedV)
 		okHere = valid
 	case 1:
@@ -105,6 +106,7 @@ func H_C14_stringHelpers(n int, helper int) {
 		c2, e2 = CompareVersion[string, string](fixedV, string(in))
 		l1, le = LatestVersion(in, fixedV)
 		l2, le2 = LatestVersion(fixedV, in)
+		c3, e3 = CompareVersion[string, string](string(in), string(in))
 		other, _ = Parse(fixedV)
 		okHere = valid && !ref.tag
 	case 2:
@@ -112,12 +114,14 @@ func H_C14_stringHelpers(n int, helper int) {
 		c2, e2 = CompareTag(fixedT, in)
 		l1, le = LatestTag(in, fixedT)
 		l2, le2 = LatestTag(fixedT, string(in))
+		c3, e3 = CompareTag(string(in), in)
 		other, _ = Parse(fixedT)
 		okHere = valid && ref.tag
 	}
 	vReach("valid-input", okHere)
 	vReach("invalid-input", !okHere)
 	vAssert("error-iff-invalid", (e1 == nil) == okHere && (e2 == nil) == okHere && (le == nil) == okHere && (le2 == nil) == okHere)
+	vAssert("same-text-twice-error-iff-invalid-else-equal", (e3 == nil) == okHere && c3 == 0)
 	if okHere {
 		pv, _ := Parse(in)
 		vAssert("same-as-value-compare", c1 == pv.Compare(other) && c2 == other.Compare(pv))
